@@ -23,6 +23,7 @@ class Registry:
         self.classes = {}          # cls -> {field: Sort}
         self.ghost_fields = set()  # "Cls.field"
         self.ctor_fields = {}      # cls -> [fields in constructor argument order]
+        self.ctor_defaults = {}    # cls -> {field: default value}
         self.contracts = {}        # qualname -> Contract
         self.spec_functions = {}   # name -> callable(eng, st, *args)
         self.store_hooks = {}      # "Cls.field" -> callable(eng, st, obj, old, new)
